@@ -3,6 +3,7 @@ package c08
 import (
 	"fmt"
 	"math/rand/v2"
+	"net/url"
 	"sort"
 
 	"github.com/AdguardTeam/AdGuardDNS/verif/tbench"
@@ -42,6 +43,10 @@ type pathDef struct {
 	workers int
 	get     bool
 	h3      bool
+	// jsonWire: GET /resolve?name=...&type=...&ct=application/dns-message,
+	// the JSON endpoint asked for wire-format output.  The client cannot send
+	// an OPT record there (the server builds the query itself).
+	jsonWire bool
 }
 
 // limit is the statement's bound for a request that advertised adv (-1: no
@@ -173,11 +178,15 @@ type cell struct {
 	boundary string   // name of the boundary group, or ""
 	phase    string   // "" for the grid, phasePooled for the shared-cloner histories
 	note     map[string]any
-	wire     []byte
-	form     reqForm
-	sh       shape
-	idx      int
-	id       uint16
+	jsonQ    url.Values // the query parameters on a jsonWire path
+	// upstreamOPTTainted: ecs-cache phase, the upstream's answer to the first
+	// request of the history carried padding / keep-alive options in its OPT.
+	upstreamOPTTainted bool
+	wire               []byte
+	form               reqForm
+	sh                 shape
+	idx                int
+	id                 uint16
 }
 
 func (c *cell) witness() map[string]any {
@@ -242,6 +251,19 @@ func boundaryProtos(paths []*pathDef) (out []proto) {
 	}
 
 	for _, p := range paths {
+		if p.jsonWire {
+			bare := withAdv(optSet("none"), -1)
+			for own := 0; own <= 2; own++ {
+				add(p, "json-wire-stream-max", bare, own, rng(65520, 65536)...)
+				add(p, "json-wire-stream-max", bare, own, 100, 4096, 65000, 66000, 70000, 80000)
+			}
+			for _, nw := range []string{"nil", "error"} {
+				out = append(out, proto{path: p, boundary: "silent-handler", form: bare, t: 300, noWrite: nw})
+			}
+
+			continue
+		}
+
 		// A handler that finishes without writing: whatever the server then
 		// generates itself is a response like any other.
 		for _, nw := range []string{"nil", "error"} {
@@ -328,6 +350,10 @@ func boundaryProtos(paths []*pathDef) (out []proto) {
 func gridProtos(paths []*pathDef) (out []proto) {
 	for _, p := range paths {
 		for _, adv := range advertised {
+			if p.jsonWire && adv >= 0 {
+				continue
+			}
+
 			sets := optSets
 			if adv < 0 {
 				sets = optSets[:1]
@@ -428,6 +454,18 @@ func buildCells(r *vkit.Run, protos []proto) (cells []*cell, err error) {
 		q := tbench.QuerySpec{
 			ID: c.id, Flags: flags, Name: tbench.WireNameString(c.sh.qname()),
 			QType: dns.TypeTXT, QClass: dns.ClassINET, OPT: c.form.opt(),
+		}
+		if c.path.jsonWire {
+			// c.wire / c.req are the query the server builds out of the
+			// parameters (ID and OPT aside), for the model.
+			c.jsonQ = url.Values{"name": {c.sh.qname()}, "type": {"TXT"}, "ct": {"application/dns-message"}}
+			if flags&tbench.FlagCD != 0 {
+				c.jsonQ.Set("cd", "1")
+			}
+			if rng.IntN(2) == 0 {
+				c.jsonQ.Set("do", "1")
+			}
+			c.note = map[string]any{"url_query": c.jsonQ.Encode()}
 		}
 		c.wire = q.Wire()
 		c.req = &dns.Msg{}
